@@ -88,9 +88,9 @@ func HarnessRunCommandVsAdversary() {
 		replyGoroutines.Wait()
 	}
 	s.mu.Lock()
-	_, left := s.pending[CallId{Id: A.GetId(), Target: t}]
+	left := len(s.pending)
 	s.mu.Unlock()
-	vrt.Assert(!left, "no-pending-entry-left-behind")
+	vrt.Assert(left == 0, "no-pending-entry-left-behind")
 	if sendFails {
 		vrt.Assert(err != nil && res == nil, "send-failure-is-reported")
 		vrt.Reach("sendfail")
